@@ -37,6 +37,10 @@ CLAIMED = {
    technique="exhaustive enumeration of register/serve/shutdown/query histories up to a length bound, executed on the implementation under the controlled scheduler and compared step by step with a list+map reference model",
    text="All histories of length <=4 (thorough <=5) over {register one of 6 name/description pairs (incl. a duplicate name with a different text, the built-in name, a resolver), serve, shutdown, query} and 3 identity-string sets are executed on the real Service; a query uses the library's own client helpers over a controlled connection: GetInfo (also with nil out-pointers), GetInterfaceDescription for every name ever mentioned plus its prefix, upper-case variant and one-character extension, '', and Resolver.GetInfo/Resolve when a resolver is registered. Every registration verdict, the registered-names list after every step and every query result must equal the reference model (names in registration order after org.varlink.service, texts verbatim incl. '', non-ASCII and a 76 KiB text, InvalidParameter(interface) otherwise, refusals change nothing).",
    note="Strings come from a small adversarial alphabet (valid UTF-8 only, as the property says); schedules: default plus 1 deviation for short histories - the data-race side of registering while serving is C16's."),
+ "C18": dict(engine=A, design="§3 C18",
+   technique="bounded-exhaustive enumeration of read-primitive words x byte streams x segmentations, executed on the real ctxio.Conn under the controlled scheduler against a cursor (byte-stream prefix) model; end-to-end Upgrade on both sides with schedule exploration",
+   text="Every word of length <=3 (thorough <=4) over {ReadBytes, Read(1), Read(2), Read(7), Read(4096), Read(8192)} is run against 13 streams (0-2 frames, frames of 4095/4096/4097 bytes, payloads incl. NUL bytes and one larger than the buffer) under every listed segmentation (unsplit, every single cut, pairs of cuts, byte-by-byte; boundary offsets for long streams). Each primitive must return exactly the next bytes (ReadBytes: through the next NUL; Read(n): 1..n bytes), EOF only at the end, never skipping or repeating a byte whatever an earlier primitive buffered. End to end: client Upgrade + raw reads with the payload coalesced with the reply frame, and a handler reading call.Conn after a request frame followed by payload in the same write, split at every offset.",
+   note="Segment boundaries are exactly the listed cuts (vnet returns at most one segment per read); streams are an alphabet around the 4096-byte buffer, not all byte strings."),
 }
 
 NOT_YET = "check not built yet (work in progress; see DESIGN.md for the plan)"
